@@ -1,13 +1,74 @@
 (** C04 — the BER decoder accepts every valid BER serialisation with the same
-    meaning.  Statements only (proofs: Ber/BerAccept.v).  Placeholder while the
-    acceptance proof is being built: the reading relation is inhabited. *)
-From Asn1V Require Import Base.Prelude Syntax.Asn1 Ber.X690 Ber.BerScope Ber.BerImpl.
+    meaning.  Statements only; proofs live in Ber/BerAccept.v (acceptance
+    induction), Ber/BerAcceptBase.v (headers, end-of-contents, tag mismatch,
+    segmented octet/character strings), Ber/BerAcceptBits.v (segmented bit
+    strings), Ber/BerMembers.v (the member-retry loop of SEQUENCE), Ber/BerSet.v
+    (SET components in any order), Ber/BerTrunc.v (truncation).
+    [BerImpl.ber_decode] is the implementation model of asn1tools/codecs/ber.py
+    (tied to /repo by harness/c04.py); [bser]/[bwf]/[bread] (Ber/X690.v) are
+    the specification: BER data values in any form X.690 allows, their octets,
+    and the value they denote; [in_scope] (Ber/BerScope.v) and [compiles]
+    (Ber/BerAcceptBase.v) are decidable scope predicates. *)
+From Asn1V Require Import Base.Prelude Syntax.Asn1 Ber.X690 Ber.BerScope Ber.BerImpl
+     Ber.BerAcceptBase Ber.BerAccept Ber.BerTrunc.
 
-Example C04_ber_sem_inhabited :
-  ber_sem false [] (TSeq false [("a"%string, TBool, Mandatory)] None)
-          (hex "30800101ff0000"%string) (VSeq [("a"%string, VBool true)]).
-Proof.
-  exists 5%nat, (BCons Univ 16 LIndef [BPrim Univ 1 [1] [255]]).
-  split; [vm_compute; reflexivity|]. split; vm_compute; reflexivity.
-Qed.
-Print Assumptions C04_ber_sem_inhabited.
+(** For EVERY BER tree [x] — each constructed encoding independently definite
+    or indefinite, every definite length in short, long or zero-padded long
+    form (1..126 length octets), OCTET/BIT/character strings primitive or split
+    into universal-tag segments nested to any depth, SET components in any
+    order, any mixture — that the specification reads as the value [v] of type
+    [t], the decoder model, given the octets of [x] followed by ANY tail,
+    returns exactly [v] and the end offset [length (bser x)]. *)
+Theorem C04_ber_accepts :
+  forall numeric e fuel t x v tail,
+    in_scope numeric e fuel t = true -> compiles e fuel t = true ->
+    bwf x = true -> bread numeric e fuel t x = Some v ->
+    BerImpl.ber_decode numeric fuel e t (bser x ++ tail) = Ok (v, length (bser x)).
+Proof. exact ber_accepts_tree. Qed.
+Print Assumptions C04_ber_accepts.
+
+(** the same on octet strings: [ber_sem_at] = "bs is a valid BER encoding denoting v" *)
+Theorem C04_ber_accepts_sem :
+  forall numeric e fuel t bs v,
+    ber_sem_at numeric e fuel t bs v ->
+    in_scope numeric e fuel t = true -> compiles e fuel t = true ->
+    forall tail, BerImpl.ber_decode numeric fuel e t (bs ++ tail) = Ok (v, length bs).
+Proof. exact ber_accepts. Qed.
+Print Assumptions C04_ber_accepts_sem.
+
+(** every strict prefix of a BER encoder output is rejected with a decode error *)
+Theorem C04_ber_truncation :
+  forall numeric e fuel t v bs k,
+    scope_enc numeric e fuel t = true -> scope_dec e fuel t = true -> compiles e fuel t = true ->
+    BerImpl.ber_encode numeric fuel e t v = Ok bs -> BerTrunc.small bs -> (k < length bs)%nat ->
+    exists err, BerImpl.ber_decode numeric fuel e t (firstn k bs) = Err err /\ is_decode_error err = true.
+Proof. exact ber_truncation. Qed.
+Print Assumptions C04_ber_truncation.
+
+(** Non-vacuity: an indefinite-length SET written in non-declaration order,
+    with a padded long-form length, an extension addition, a DEFAULT component
+    left out, a bit string split into nested segments (one of them indefinite)
+    and an explicitly tagged, segmented UTF8String satisfies every hypothesis;
+    the decoder model returns the value the specification reads. *)
+Definition C04_env : env := [("Inner"%string, TSeqOf false (TInt IcNone) SzNone)].
+Definition C04_ty : ty :=
+  TSeq true
+    [("b"%string, TTag (mkTag Ctx 1 false) (TBits None SzNone), Mandatory);
+     ("d"%string, TTag (mkTag Ctx 0 false) TBool, Default (VBool true));
+     ("s"%string, TTag (mkTag Appl 40 true) (TStr SkUTF8 SzNone None), Mandatory)]
+    (Some [(false, [("x"%string, TTag (mkTag Priv 2 false) (TRef "Inner"%string), Optional)])]).
+Definition C04_tree : btlv :=
+  BCons Univ 17 LIndef
+    [BCons Priv 2 (LDef [130; 0; 7]) [BPrim Univ 2 [1] [5]; BPrim Univ 2 [129; 1] [255]];
+     BCons Appl 40 (LDef [9]) [BCons Univ 12 (LDef [7]) [BPrim Univ 4 [1] [195]; BPrim Univ 4 [2] [165; 97]]];
+     BCons Ctx 1 LIndef [BPrim Univ 3 [2] [0; 170];
+                         BCons Univ 3 LIndef [BPrim Univ 3 [1] [0]; BPrim Univ 3 [2] [4; 240]]]].
+Definition C04_val : value :=
+  VSeq [("b"%string, VBits [170; 240] 12); ("d"%string, VBool true); ("s"%string, VStr [229; 97]);
+        ("x"%string, VList [VInt 5; VInt (-1)])].
+Example C04_hypotheses_inhabited :
+  in_scope false C04_env 12 C04_ty = true /\ compiles C04_env 12 C04_ty = true /\
+  bwf C04_tree = true /\ bread false C04_env 12 C04_ty C04_tree = Some C04_val /\
+  BerImpl.ber_decode false 12 C04_env C04_ty (bser C04_tree ++ [1; 2; 3]) = Ok (C04_val, length (bser C04_tree)).
+Proof. repeat split; vm_compute; reflexivity. Qed.
+Print Assumptions C04_hypotheses_inhabited.
